@@ -1,6 +1,6 @@
 (* C08 (locality): what handling a board message of round r does to round r depends only on what
-   the node holds for round r (its dump and signature store), the stored batch sources, and the
-   node's identity - not on anything it holds for other rounds.  Together with the frame theorem
+   the node holds for round r (its dump, its signature store, the batch sources kept for it), and
+   the node's identity - not on anything it holds for other rounds.  Together with the frame theorem
    this gives: a round's state is a function of its own sub-log. *)
 From Coq Require Import String List NArith ZArith Bool Lia.
 Require Import Fsm.EngineDefs Fsm.Types Fsm.Engine Fsm.Actions Fsm.Provider Node.Types Node.Process Node.Frame.
@@ -11,7 +11,7 @@ Local Open Scope list_scope.
 Definition lagree (r : tok) (a b : nstate) : Prop :=
   ns_user a = ns_user b /\ ns_skip a = ns_skip b /\
   tget' (ns_rounds a) r = tget' (ns_rounds b) r /\ tget' (ns_sigs a) r = tget' (ns_sigs b) r /\
-  ns_srcs a = ns_srcs b.
+  tget' (ns_srcs a) r = tget' (ns_srcs b) r.
 
 Definition hrel (r : tok) (ha hb : hs) : Prop := lagree r (h_st ha) (h_st hb).
 
@@ -36,10 +36,10 @@ Proof.
   rewrite !aput_same. auto.
 Qed.
 
-Lemma l_emit_src r ha hb s t : hrel r ha hb -> hrel r (emit ha (WSrc s t)) (emit hb (WSrc s t)).
+Lemma l_emit_src r ha hb s t : hrel r ha hb -> hrel r (emit ha (WSrc r s t)) (emit hb (WSrc r s t)).
 Proof.
   intros (H1 & H2 & H3 & H4 & H5). unfold hrel, lagree, emit. cbn [h_st apply_write ns_user ns_skip ns_rounds ns_sigs ns_srcs].
-  rewrite H5. auto.
+  rewrite !aput_same, H5. auto.
 Qed.
 
 Lemma l_emit_send r ha hb ma mb : hrel r ha hb -> hrel r (emit ha (WSend ma)) (emit hb (WSend mb)).
@@ -54,8 +54,8 @@ Proof.
   rewrite !aput_same. auto.
 Qed.
 
-Lemma l_reconstruct r a b round p batch src parts :
-  lagree r a b -> reconstruct a round p batch src parts = reconstruct b round p batch src parts.
+Lemma l_reconstruct r a b p batch src parts :
+  lagree r a b -> reconstruct a r p batch src parts = reconstruct b r p batch src parts.
 Proof. intros (_ & _ & _ & _ & H5). unfold reconstruct. rewrite H5. reflexivity. Qed.
 
 Lemma l_verify r a b p m : lagree r a b -> verify_ok a p m = verify_ok b p m.
@@ -171,20 +171,21 @@ Proof.
   - apply Hstep5. exact Hh.
 Qed.
 
-(* ---- what no board message changes: the node's identity, the verification switch, and - unless
-   it is a batch proposal - the stored batch sources ---- *)
-Definition gkeep (st st' : nstate) (start : bool) : Prop :=
-  ns_user st' = ns_user st /\ ns_skip st' = ns_skip st /\ (start = false -> ns_srcs st' = ns_srcs st).
+(* ---- what no board message changes: the node's identity, the verification switch, and the batch
+   sources kept for every OTHER round ---- *)
+Definition gkeep (st st' : nstate) (round : tok) : Prop :=
+  ns_user st' = ns_user st /\ ns_skip st' = ns_skip st /\
+  (forall r', r' <> round -> tget' (ns_srcs st') r' = tget' (ns_srcs st) r').
 
-Definition res_keep {A} (st : nstate) (start : bool) (x : res A) : Prop :=
+Definition res_keep {A} (st : nstate) (start : tok) (x : res A) : Prop :=
   match x with ROk h _ => gkeep st (h_st h) start | RErr h => gkeep st (h_st h) start | RPanic => True end.
 
 Lemma k_emit st start h w :
-  match w with WSkip _ => False | WSrc _ _ => start = true | _ => True end ->
+  match w with WSkip _ => False | WSrc r _ _ => r = start | _ => True end ->
   gkeep st (h_st h) start -> gkeep st (h_st (emit h w)) start.
 Proof.
   intros Hw (H1 & H2 & H3). destruct w; try contradiction; unfold gkeep, emit; cbn [h_st apply_write ns_user ns_skip ns_srcs];
-    repeat split; auto. intros Hs. congruence.
+    repeat split; auto. intros r' Hr. subst round. rewrite aput_other by congruence. apply H3. exact Hr.
 Qed.
 
 Lemma k_save_fsm st start h round d : gkeep st (h_st h) start -> gkeep st (h_st (save_fsm h round d)) start.
@@ -200,22 +201,22 @@ Lemma k_pm_restart st start now m h inst : gkeep st (h_st h) start -> res_keep s
 Proof. intros H. unfold pm_restart. destruct (do_live _ _ _); cbn [res_keep]; auto. Qed.
 
 Lemma k_pm_prop st m req h i4 op :
-  gkeep st (h_st h) (String.eqb (m_event m) ev_sgn_start) ->
-  res_keep st (String.eqb (m_event m) ev_sgn_start) (pm_prop m req h i4 op).
+  gkeep st (h_st h) (m_round m) ->
+  res_keep st (m_round m) (pm_prop m req h i4 op).
 Proof.
   intros H. unfold pm_prop. destruct (String.eqb (m_event m) ev_sgn_start) eqn:E.
   - destruct (m_tasks m) as [tasks|]; [|exact H].
     destruct req; try exact H.
     match goal with |- context [save_signatures ?hh ?l] =>
-      pose proof (k_save_signatures st true hh l) as Hs end.
+      pose proof (k_save_signatures st (m_round m) hh l) as Hs end.
     match type of Hs with ?P -> _ => assert (H1 : P); [apply k_emit; [reflexivity|exact H]|specialize (Hs H1)] end.
     destruct (save_signatures _ _) as [h' u|h'|]; cbn [res_keep] in Hs |- *; auto; try (apply k_save_fsm; exact Hs).
   - cbn [res_keep]. apply k_save_fsm. exact H.
 Qed.
 
 Lemma k_pm_tail st now m req h inst :
-  gkeep st (h_st h) (String.eqb (m_event m) ev_sgn_start) ->
-  res_keep st (String.eqb (m_event m) ev_sgn_start) (pm_tail now m req h inst).
+  gkeep st (h_st h) (m_round m) ->
+  res_keep st (m_round m) (pm_tail now m req h inst).
 Proof.
   intros H. unfold pm_tail.
   destruct (negb (sender_is_participant _ _ _)); [exact H|].
@@ -231,10 +232,10 @@ Proof.
 Qed.
 
 Theorem process_message_keeps now st m :
-  res_keep st (String.eqb (m_event m) ev_sgn_start) (process_message now {| h_st := st; h_tr := [] |} m).
+  res_keep st (m_round m) (process_message now {| h_st := st; h_tr := [] |} m).
 Proof.
   unfold process_message.
-  assert (H0 : gkeep st (h_st {| h_st := st; h_tr := [] |}) (String.eqb (m_event m) ev_sgn_start)) by (repeat split; reflexivity).
+  assert (H0 : gkeep st (h_st {| h_st := st; h_tr := [] |}) (m_round m)) by (repeat split; reflexivity).
   destruct (get_instance {| h_st := st; h_tr := [] |} (m_round m) true) as [h1 inst| h1 |] eqn:Eg; cbn; auto.
   2:{ unfold get_instance in Eg. cbn [h_st] in Eg.
       destruct (tget' (ns_rounds st) (m_round m)) as [d|].
@@ -250,13 +251,13 @@ Proof.
   destruct (negb (String.eqb (m_event m) ev_sig_init) && _); [exact H0|].
   destruct (String.eqb (m_event m) ev_sig_reconstructed).
   { destruct (m_req m) as [rq| |[l|]]; try exact H0.
-    match goal with |- context [save_signatures ?hh ?l] => pose proof (k_save_signatures st (String.eqb (m_event m) ev_sgn_start) hh l H0) as Hs end.
+    match goal with |- context [save_signatures ?hh ?l] => pose proof (k_save_signatures st (m_round m) hh l H0) as Hs end.
     destruct (save_signatures _ _); cbn in Hs |- *; auto. }
   destruct (String.eqb (m_event m) ev_sig_recon_failed).
   { destruct (m_req m) as [[]| |]; exact H0. }
   destruct (has_suffix (i_dstate inst) "_error" && _); [exact H0|]. cbv zeta.
-  assert (Hstep5 : forall h i, gkeep st (h_st h) (String.eqb (m_event m) ev_sgn_start) ->
-    res_keep st (String.eqb (m_event m) ev_sgn_start)
+  assert (Hstep5 : forall h i, gkeep st (h_st h) (m_round m) ->
+    res_keep st (m_round m)
       (if has_suffix (i_dstate i) "_timeout" && (has_prefix (i_dstate i) "state_sig_" || has_prefix (i_dstate i) "state_dkg")
        then ROk h None
        else match (if has_suffix (i_dstate i) "_timeout" && has_prefix (i_dstate i) "state_signing_"
@@ -326,7 +327,7 @@ Proof.
 Qed.
 
 Lemma board_message_keeps now st m :
-  res_keep st (String.eqb (m_event m) ev_sgn_start) (node_step now st (InMsg m)).
+  res_keep st (m_round m) (node_step now st (InMsg m)).
 Proof.
   unfold node_step, process_board_message.
   pose proof (process_message_keeps now st m) as H.
@@ -334,18 +335,20 @@ Proof.
   apply k_put_operation. exact H.
 Qed.
 
-(* a message of another round that is not a batch proposal: nothing round r depends on changes *)
+(* a message of another round - any message, batch proposals included: nothing round r depends on
+   changes *)
 Lemma step_msg_other r a b nm :
-  m_round (snd nm) <> r -> String.eqb (m_event (snd nm)) ev_sgn_start = false ->
+  m_round (snd nm) <> r ->
   lagree r a b -> lagree r (step_msg a nm) b.
 Proof.
-  intros Hne Hns (H1 & H2 & H3 & H4 & H5). destruct nm as [now m]. cbn [fst snd] in *.
+  intros Hne (H1 & H2 & H3 & H4 & H5). destruct nm as [now m]. cbn [fst snd] in *.
   unfold step_msg. cbn [fst snd].
   pose proof (board_message_frame now a m r Hne) as Hf.
-  pose proof (board_message_keeps now a m) as Hk. rewrite Hns in Hk.
+  pose proof (board_message_keeps now a m) as Hk.
+  assert (Hne' : r <> m_round m) by congruence.
   destruct (node_step now a (InMsg m)) as [h u|h|]; cbn in Hf, Hk; [| |repeat split; assumption].
-  - destruct Hf as [F1 F2]. destruct Hk as (K1 & K2 & K3). unfold lagree. rewrite K1, K2, F1, F2, (K3 eq_refl). auto.
-  - destruct Hf as [F1 F2]. destruct Hk as (K1 & K2 & K3). unfold lagree. rewrite K1, K2, F1, F2, (K3 eq_refl). auto.
+  - destruct Hf as [F1 F2]. destruct Hk as (K1 & K2 & K3). unfold lagree. rewrite K1, K2, F1, F2, (K3 r Hne'). auto.
+  - destruct Hf as [F1 F2]. destruct Hk as (K1 & K2 & K3). unfold lagree. rewrite K1, K2, F1, F2, (K3 r Hne'). auto.
 Qed.
 
 Definition run_msgs (st : nstate) (l : list (Z * message)) : nstate := fold_left step_msg l st.
@@ -354,35 +357,26 @@ Definition sublog (r : tok) (l : list (Z * message)) : list (Z * message) :=
 
 (* THE SUB-LOG THEOREM: for every log (accepted, refused, duplicated, junk messages alike; any
    clock values), what a node holds for round r after the whole log is what it holds after the
-   sub-sequence of round r's messages - provided the interleaved messages of other rounds are not
-   batch proposals (their sources are stored under a content hash shared by all rounds, which the
-   model does not interpret) *)
+   sub-sequence of round r's messages - whatever the messages of the other rounds are *)
 Theorem round_state_is_function_of_sublog r l : forall a b,
   lagree r a b ->
-  (forall nm, In nm l -> m_round (snd nm) <> r -> String.eqb (m_event (snd nm)) ev_sgn_start = false) ->
   lagree r (run_msgs a l) (run_msgs b (sublog r l)).
 Proof.
-  induction l as [|nm l IH]; intros a b H Hl; [exact H|].
+  induction l as [|nm l IH]; intros a b H; [exact H|].
   cbn [run_msgs fold_left sublog filter].
   destruct (N.eqb_spec (m_round (snd nm)) r) as [E|E].
-  - cbn [fold_left]. apply IH.
-    + apply step_msg_local; assumption.
-    + intros x Hx. apply Hl. right. exact Hx.
-  - apply IH.
-    + apply step_msg_other; [exact E|apply Hl; [left; reflexivity|exact E]|exact H].
-    + intros x Hx. apply Hl. right. exact Hx.
+  - cbn [fold_left]. apply IH. apply step_msg_local; assumption.
+  - apply IH. apply step_msg_other; [exact E|exact H].
 Qed.
 
 Corollary two_nodes_same_sublog_agree r l1 l2 a :
   sublog r l1 = sublog r l2 ->
-  (forall nm, In nm l1 -> m_round (snd nm) <> r -> String.eqb (m_event (snd nm)) ev_sgn_start = false) ->
-  (forall nm, In nm l2 -> m_round (snd nm) <> r -> String.eqb (m_event (snd nm)) ev_sgn_start = false) ->
   ragree r (run_msgs a l1) (run_msgs a l2).
 Proof.
-  intros He H1 H2.
+  intros He.
   assert (Hr : lagree r a a) by (repeat split; reflexivity).
-  pose proof (round_state_is_function_of_sublog r l1 a a Hr H1) as (_ & _ & A1 & A2 & _).
-  pose proof (round_state_is_function_of_sublog r l2 a a Hr H2) as (_ & _ & B1 & B2 & _).
+  pose proof (round_state_is_function_of_sublog r l1 a a Hr) as (_ & _ & A1 & A2 & _).
+  pose proof (round_state_is_function_of_sublog r l2 a a Hr) as (_ & _ & B1 & B2 & _).
   rewrite He in A1, A2. split; congruence.
 Qed.
 
